@@ -356,7 +356,29 @@ pub struct Crafted {
 pub fn craft_exact(n: usize, target: i64, style: u32, rng: &mut ChaCha20Rng) -> Option<Crafted> {
     let psi = spec::find_psi(n);
     for _attempt in 0..50 {
-        let s2: Vec<i64> = match style % 4 {
+        let s2: Vec<i64> = match if style >= 100 { 99 } else { style % 4 } {
+            99 => {
+                // "tight": the encoding uses exactly 8L - t bits (t = style - 100): every
+                // coefficient of magnitude 128..255 costs one extra bit
+                let l = if n == 512 { 625 } else { 1239 };
+                let t = (style - 100) as usize;
+                let big = 8 * l - t - 9 * n;
+                let mut v: Vec<i64> = (0..n)
+                    .map(|i| {
+                        let m = if i < big { rng.gen_range(128..200) } else { rng.gen_range(0..100) };
+                        if rng.gen() {
+                            m
+                        } else {
+                            -m
+                        }
+                    })
+                    .collect();
+                for k in (1..n).rev() {
+                    let j = rng.gen_range(0..=k);
+                    v.swap(k, j);
+                }
+                v
+            }
             1 => {
                 let mut v = vec![0i64; n];
                 let k = rng.gen_range(1..8);
@@ -382,7 +404,7 @@ pub fn craft_exact(n: usize, target: i64, style: u32, rng: &mut ChaCha20Rng) -> 
         let mut s1: Vec<i64> = Vec::with_capacity(n);
         let mut budget = rem - 50_000; // leave room for the four squares
         let free = n - 4;
-        if style % 4 == 2 {
+        if style < 100 && style % 4 == 2 {
             // a few coefficients at the very edge of the centred range
             let edges = [6144i64, -6144, 6143, -6143];
             let mut placed = 0;
